@@ -80,6 +80,10 @@ class Rewriter(ast.NodeTransformer):
         if isinstance(f, ast.Attribute) and f.attr == "join" and len(node.args) == 1 and not node.keywords:
             return ast.copy_location(
                 ast.Call(ast.Name("__sym_join__", ast.Load()), [f.value, node.args[0]], []), node)
+        if isinstance(f, ast.Attribute) and f.attr == "format" and not isinstance(f.value, ast.Constant):
+            # template.format(...): real str.format would reject proxy arguments
+            return ast.copy_location(
+                ast.Call(ast.Name("__sym_fmtcall__", ast.Load()), [f.value, *node.args], node.keywords), node)
         if isinstance(f, ast.Attribute) and isinstance(f.value, ast.Constant) and isinstance(f.value.value, str):
             # "literal".method(args): a real str method would reject proxy arguments
             return ast.copy_location(
@@ -117,7 +121,36 @@ def sym_items(d):
     return list(d.items())
 
 
+def sym_fmtcall(template, *args, **kw):
+    """template.format(*args, **kw) where arguments may be proxies (plain {}, {0}, {name} fields only)."""
+    if not isinstance(template, str):
+        return template.format(*args, **kw)
+    if not any(isinstance(a, SymStr) for a in list(args) + list(kw.values())):
+        return template.format(*args, **kw)
+    import string
+    out, auto = None, 0
+    for lit, field, spec, conv in string.Formatter().parse(template):
+        pieces = [lit] if lit else []
+        if field is not None:
+            if spec or conv:
+                raise Unsupported("str.format with a format spec / conversion on proxy arguments")
+            if field == "":
+                val, auto = args[auto], auto + 1
+            elif field.isdigit():
+                val = args[int(field)]
+            elif field.isidentifier():
+                val = kw[field]
+            else:
+                raise Unsupported("str.format with attribute / index fields on proxy arguments")
+            pieces.append(val if sc.is_strlike(val) else sc.sym_str(val))
+        for x in pieces:
+            out = x if out is None else out + x
+    return "" if out is None else out
+
+
 def sym_strcall(lit, meth, *args, **kw):
+    if meth == "format":
+        return sym_fmtcall(lit, *args, **kw)
     if any(isinstance(a, SymStr) for a in args):
         return getattr(SymStr(lit), meth)(*args, **kw)
     return getattr(lit, meth)(*args, **kw)
@@ -217,7 +250,7 @@ def _builtins_dict():
         int=sc.sym_int, ord=sc.sym_ord,
         __sym_fmt__=sc.sym_fmt, __sym_dict__=SymDict, __sym_set__=SymSet, __sym_in__=sc.sym_in,
         __sym_join__=sc.sym_join, __sym_repr__=sym_repr, __sym_strbase__=stubs.SymStrBase,
-        __sym_format__=sym_format, __sym_items__=sym_items, __sym_strcall__=sym_strcall,
+        __sym_format__=sym_format, __sym_items__=sym_items, __sym_strcall__=sym_strcall, __sym_fmtcall__=sym_fmtcall,
     )
     return b
 
